@@ -72,3 +72,6 @@ def extra_checks(tier, seed, consts):
 
 def finding_key(v):
     return v.detail if isinstance(v.detail, str) and v.detail == "dummy-slot-carries-zero-account-total" else None
+
+# fids whose cases apply hint overrides addressed by (generator kind, occurrence) - see runner.default_judge
+OVERRIDE_FIDS = {"602"}
